@@ -103,7 +103,7 @@ impl Monitor for C09 {
         vec![("trainings", tier.pick(6000, 120_000))]
     }
     fn rule(&self) -> &'static str {
-        "case = random layer sequence (dense / convolution / deconvolution / max-pool / feedback block, 0..4 dense layers at varying positions, dense output layer; every third network additionally gets one or two skip connections (often chained or sharing a source) and / or a loop connection over one layer) with dropout (rate from {0.1,0.5,0.9,1.0}) on a random non-empty subset of the dropout-capable layers, 4..12 training and 1..70 validation samples, 1..4 epochs, batch 1..5, SGD; with and (every 4th case) without validation data; every 8th case uses tolerance 1 so that training stops early after epoch 2; after all checks a second learn() call is made on the same network and checked the same way. (1) hooked state: every forward pass of a validation sample inside learn() must see all training flags false (the flags seen by the forward passes of training samples are recorded as evidence that dropout was live, not judged), flags all false after learn() returns and before/during/after stand-alone validate()/predict(). (2) differential: a twin network without dropout receives the trained weights; the validation loss/accuracy learn() reported for its last epoch must equal validate() on the twin bit-for-bit, predict() must agree on probe inputs, and this is repeated for every prefix e <= E by deterministic re-training (prefix losses must coincide). (3) validate() right after learn() equals the last reported epoch. A case is non-trivial when the fixed-seed mask really changes the training forward pass (checked by comparing a training-mode forward with the twin). Distinct = distinct configuration descriptors."
+        "case = random layer sequence (dense / convolution / deconvolution / max-pool / feedback block, 0..4 dense layers at varying positions, dense output layer; every third network additionally gets one or two skip connections (often chained or sharing a source) and / or a loop connection over one layer) with dropout (rate from {0.1,0.5,0.9,1.0}) on a random non-empty subset of the dropout-capable layers, 4..12 training and 1..70 validation samples, 1..4 epochs, batch 1..5, SGD; with and (every 4th case) without validation data; every 8th case uses tolerance 1 so that training stops early after epoch 2; after all checks a second learn() call is made on the same network and checked the same way, followed by a learn() call with 0 (every third case: -1) epochs after which the flags must be off and predict() must equal the dropout-free twin. (1) hooked state: every forward pass of a validation sample inside learn() must see all training flags false (the flags seen by the forward passes of training samples are recorded as evidence that dropout was live, not judged), flags all false after learn() returns and before/during/after stand-alone validate()/predict(). (2) differential: a twin network without dropout receives the trained weights; the validation loss/accuracy learn() reported for its last epoch must equal validate() on the twin bit-for-bit, predict() must agree on probe inputs, and this is repeated for every prefix e <= E by deterministic re-training (prefix losses must coincide). (3) validate() right after learn() equals the last reported epoch. A case is non-trivial when the fixed-seed mask really changes the training forward pass (checked by comparing a training-mode forward with the twin). Distinct = distinct configuration descriptors."
     }
     fn assumptions(&self) -> Vec<&'static str> {
         vec!["the library's dropout mask is a deterministic function of the tensor size (generator re-seeded with a constant), which makes re-training prefixes reproducible", "bit-for-bit equality is demanded because the statement is an identity (same weights, same code path, dropout off)"]
@@ -417,6 +417,41 @@ impl Monitor for C09 {
                     if !m.contains("Loss is NaN") && !diverged(&a, &probes) {
                         out.viol("dropout:learn-panic", format!("second learn() call panicked: {} [{}]", short(&m, 160), desc), detail());
                     }
+                }
+            }
+        }
+        // a learn() call that trains nothing (0 epochs, as a resumed run with no epochs left
+        // would make; every third case a negative count): it must leave the network predicting
+        // like its dropout-free twin
+        {
+            let none: i32 = if idx % 3 == 0 { -1 } else { 0 };
+            let (r0, _) = in_cached_pool(3, || {
+                guard(|| {
+                    let validation: Option<(&Vec<&Tensor>, &Vec<&Tensor>, i32)> = if with_val { Some((&vxr, &vtr, 100)) } else { None };
+                    a.learn(&xr, &tr, validation, batch, none, None)
+                })
+            });
+            match r0 {
+                Ok(_) => {
+                    out.count("learn_calls_with_no_epochs", 1);
+                    if any_flag(&a) {
+                        out.viol("dropout:flags-left-on-after-learn:no-epochs", format!("training flags {:?} after learn() with {} epochs [{}]", verif::training_flags(&a), none, desc), detail());
+                    }
+                    let trained = read_params(&a, &cfg, &params);
+                    if let Ok(twin) = mk(&base, &trained) {
+                        for x in probes.iter().take(6) {
+                            if let (Ok(p), Ok(q)) = (guard(|| a.predict(x)), guard(|| twin.predict(x))) {
+                                if !bits_eq(&flat(&p), &flat(&q)) {
+                                    out.viol("dropout:predict-differs-from-dropout-free:after-no-epochs", format!("after learn() with {} epochs predict() differs from the identical network without dropout [{}]", none, desc), detail());
+                                    break;
+                                }
+                            }
+                        }
+                    }
+                }
+                Err(m) => {
+                    // (whether a call without epochs is accepted at all is not part of the property)
+                    out.cover("learn_with_no_epochs_refused", short(&m, 60));
                 }
             }
         }
